@@ -1,0 +1,30 @@
+//go:build verif
+
+package engine
+
+import myraft "github.com/feichai0017/NoKV/raft"
+
+// VerifEncodeRaftEntries exposes encodeRaftEntries.
+func VerifEncodeRaftEntries(groupID uint64, entries []myraft.Entry) ([]byte, error) {
+	return encodeRaftEntries(groupID, entries)
+}
+
+// VerifDecodeRaftEntries exposes decodeRaftEntries.
+func VerifDecodeRaftEntries(data []byte) (uint64, []myraft.Entry, error) {
+	return decodeRaftEntries(data)
+}
+
+// VerifEncodeRaftHardState exposes encodeRaftHardState.
+func VerifEncodeRaftHardState(groupID uint64, st myraft.HardState) ([]byte, error) {
+	return encodeRaftHardState(groupID, st)
+}
+
+// VerifDecodeRaftHardState exposes decodeRaftHardState.
+func VerifDecodeRaftHardState(data []byte) (uint64, myraft.HardState, error) {
+	return decodeRaftHardState(data)
+}
+
+// VerifDecodeRaftSnapshot exposes decodeRaftSnapshot.
+func VerifDecodeRaftSnapshot(data []byte) (uint64, myraft.Snapshot, error) {
+	return decodeRaftSnapshot(data)
+}
